@@ -31,7 +31,7 @@ func soloCompile(units []*unit, opt xgolib.Options) { soloCompileSpec(units, opt
 
 func soloCompileSpec(units []*unit, opt xgolib.Options, spec batchSpec) {
 	for _, u := range units {
-		out := xgolib.Compile(spec.Compose([]*unit{u}), opt)
+		out := spec.compile(spec.Compose([]*unit{u}), opt)
 		switch {
 		case out.Panic != nil:
 			u.SoloErr = fmt.Sprintf("panic(%s): %v", out.Stage, out.Panic)
@@ -131,6 +131,15 @@ type batchSpec struct {
 	Post       func(bin string, b []*unit, res map[int]*batchOutcome) // optional: inspect the built binary
 	FailOnExit bool // a non-zero exit status of the program is bisected like a build failure
 	PlainGo    bool // Compose returns {"main.go": Go source}: no XGo compilation, the Go tool chain only
+	CompileFn  func(files map[string]string) xgolib.Outcome // optional: replaces xgolib.Compile(files, opt)
+	ParseAt    func(stdout, pkgDir string) map[int][]string // optional: Parse that knows the Go package's directory
+}
+
+func (s batchSpec) compile(files map[string]string, opt xgolib.Options) xgolib.Outcome {
+	if s.CompileFn != nil {
+		return s.CompileFn(files)
+	}
+	return xgolib.Compile(files, opt)
 }
 
 // defaultSpec: declarations concatenated into main.xgo, `case<idx>` calls as top-level statements,
@@ -179,7 +188,7 @@ func runBatchesSpec(units []*unit, size int, opt xgolib.Options, workers int, sp
 		if spec.PlainGo {
 			out.Go = files["main.go"]
 		} else {
-			out = xgolib.Compile(files, opt)
+			out = spec.compile(files, opt)
 		}
 		fail := ""
 		kind := ""
@@ -232,7 +241,12 @@ func runBatchesSpec(units []*unit, size int, opt xgolib.Options, workers int, sp
 			run(b[h:])
 			return
 		}
-		parsed := spec.Parse(rr.Stdout)
+		var parsed map[int][]string
+		if spec.ParseAt != nil {
+			parsed = spec.ParseAt(rr.Stdout, filepath.Join(getRunner().Dir, "cmd", name))
+		} else {
+			parsed = spec.Parse(rr.Stdout)
+		}
 		local := map[int]*batchOutcome{}
 		for _, u := range b {
 			o := &batchOutcome{}
